@@ -21,6 +21,7 @@ func init() {
 }
 
 func c11(c *Ctx) {
+	c.haltLockSetFollowsMode("halt")
 	{
 		// "WAL writes made without holding the write lock are refused": the refusal must be about the writing owner
 		p := c.P
